@@ -462,5 +462,5 @@ pub fn run(ctx: &Ctx) {
     ctx.rule("sessions = (claimed key, auth header kind, keying-material agreement, challenge response script, allow/deny) run against the real serverside+authorize_with over an in-memory stream with a scripted exporter; adversarial client, frame encoder and signing-message derivation are harness code; oracle: Ok(K, mechanism) only if the script contained a strict-ed25519-valid signature by K over this session's exported material bound to K (suffix equal) resp. over the KDF of this session's challenge; honest client always authenticated as K via the expected mechanism; failing headers fall back to the challenge; deny is reported with its reason and yields no guard; non-trivial = any script other than the honest one");
     ctx.assume("the server's challenge comes from its own RNG; the oracle uses the challenge the client actually received. ed25519-dalek verify_strict called directly is the reference verifier");
     let k = ctx.tier.pick(1, 10);
-    ctx.explore("session", ExploreOpts::new(6_000 * k).shrink(300), strategy, run_case);
+    ctx.explore("session", ExploreOpts::new(24_000 * k).shrink(300), strategy, run_case);
 }
